@@ -58,6 +58,22 @@ def run(tier: str) -> int:
     if res2.invariant_violated:
         rep.violation("spec:Batching-invariant-small", {"tlc": res2.out[-3000:]})
 
+    # 1b. optional strengthening: Apalache proves the same arithmetic for UNBOUNDED n and max_batch_size
+    import subprocess
+    with C.Scratch("verif-apa-") as ad:
+        try:
+            p = subprocess.run(["apalache-mc", "check", "--init=Init", "--inv=LayoutInv", "--length=0",
+                                f"--out-dir={ad}", "MC_BatchingUnbounded.tla"], cwd=str(C.SPEC),
+                               capture_output=True, text=True, timeout=600)
+            out = p.stdout + p.stderr
+            if "The outcome is: NoError" in out:
+                rep.extra["apalache_unbounded_layout"] = "Init => LayoutInv holds for all n >= 1, max_batch_size >= 1, 1..8 devices"
+            elif "The outcome is: Error" in out or "violat" in out:
+                rep.violation("spec:MC_BatchingUnbounded LayoutInv (Apalache counterexample)", {"apalache": out[-3000:]})
+            else:
+                rep.extra["apalache_unbounded_layout"] = "inconclusive: " + out[-300:]
+        except (subprocess.TimeoutExpired, FileNotFoundError) as ex:
+            rep.extra["apalache_unbounded_layout"] = f"not run: {type(ex).__name__}"
     # 2. binding: real BatchProcessor observed on every point, judged by TLC
     pts = points(tier, rng)
     nproc = min(C.NCPU, 12)
